@@ -245,7 +245,14 @@ func (f *flowFn) addSrc(v ssa.Value, ins ssa.Instruction, name string, b *ssa.Ba
 }
 
 // pathName renders the access path of a value for display ("e.Condition", "e.Parts[*]").
+var pathNameDepth int
+
 func pathName(v ssa.Value) string {
+	pathNameDepth++
+	defer func() { pathNameDepth-- }()
+	if pathNameDepth > 40 {
+		return "?"
+	}
 	switch x := v.(type) {
 	case *ssa.Parameter:
 		return x.Name()
@@ -254,6 +261,23 @@ func pathName(v ssa.Value) string {
 	case *ssa.Global:
 		return x.Name()
 	case *ssa.Alloc:
+		// a local that merely names another value (single store) is described by that value, so
+		// that introducing or renaming the local does not change obligation keys
+		var only *ssa.Store
+		n := 0
+		for _, r := range *x.Referrers() {
+			if st, ok := r.(*ssa.Store); ok && st.Addr == ssa.Value(x) {
+				n++
+				only = st
+			}
+		}
+		if n == 1 {
+			if _, self := only.Val.(*ssa.Alloc); !self {
+				if nm := pathName(only.Val); nm != "?" {
+					return nm
+				}
+			}
+		}
 		if x.Comment != "" {
 			return x.Comment
 		}
